@@ -61,6 +61,7 @@ func identityOf(e *auditevent.AuditEvent) string {
 }
 
 func (r *Recorder) Write(p []byte) (int, error) {
+	vsync.Point(r, "WriteEvent") // under the scheduler every output write is a visible step
 	r.mu.Lock()
 	defer r.mu.Unlock()
 	r.nwrites++
@@ -159,7 +160,12 @@ func init() {
 	}
 }
 
-func evLabel(s, i int) string { return evLabels[s][i] }
+func evLabel(s, i int) string {
+	if s < len(evLabels) && i < len(evLabels[s]) {
+		return evLabels[s][i]
+	}
+	return fmt.Sprintf("s%de%d", s, i)
+}
 
 func xLabel(s int) string { return fmt.Sprintf("s%dx", s) }
 
